@@ -33,7 +33,7 @@ def opWn (j : Json) : E Json := do
     match fuel with
     | 0 => some t
     | fuel + 1 =>
-      let t' := tabStep G keys t
+      let t' := tabStepFast G keys t
       if t'.any (fun e => Wt.bits e.2 > maxbits) then none else half fuel t'
   let some h := half (n / 2) [] | pure (Json.mkObj [("stable", .bool false), ("exploded", .bool true)])
   -- continue from the half-way table; stop early once the table is a fixed point
@@ -41,7 +41,7 @@ def opWn (j : Json) : E Json := do
     match fuel with
     | 0 => (t, used, false)
     | fuel + 1 =>
-      let t' := tabStep G keys t
+      let t' := tabStepFast G keys t
       if (t'.map (·.2)) == (t.map (·.2)) && t'.length == t.length then (t, used, true)
       else if t'.any (fun e => Wt.bits e.2 > maxbits) then (t, used, false)
       else go fuel t' (used + 1)
